@@ -22,7 +22,7 @@ import tempfile
 import compat  # noqa: F401
 from runner import enc, Infra, unjson
 
-RULE = ('session: histories of 5..60 (quick) / 5..400 (thorough) calls drawn from add_many (batches of 0..6 with '
+RULE = ('session: 300 (quick) / 3500 (thorough) histories of 5..60 (quick) / 5..80, every tenth 5..400 (thorough) calls drawn from add_many (batches of 0..6 with '
         'internal duplicates, None / partial / full URLProperties, URLData), check_out (all 5 statuses, optional level '
         'bound), check_in (flag, URLResult), update_one, release, remove_many, add_visits, get_revisit_id, count, '
         'get_all, get_one, contains, get_hostnames, close+reopen; URLs from a per-history pool of 4..9 (collisions '
@@ -856,7 +856,7 @@ def run(ctx):
     for case in load_corpus(ctx):
         replay(ctx, case)
     rng = ctx.rng
-    n = ctx.scale(300, 1500)
+    n = ctx.scale(300, 3500)
     maxlen = 60 if ctx.tier == 'quick' else 400
     cases = []
     for i in range(n):
